@@ -1164,6 +1164,9 @@ func emitForRangeStmt(cb *CodeBuilder, p *forRangeStmt, stmts []ast.Stmt, flows 
 				Fun: &ast.SelectorExpr{X: p.stmt.X, Sel: ident(p.enumName)},
 			}
 		}
+		if p.stmt.Tok == token.DEFINE && isBlank(p.stmt.Key) && (p.stmt.Value == nil || isBlank(p.stmt.Value)) {
+			p.stmt.Tok = token.ASSIGN // for _ := range x declares nothing: Go wants for _ = range x
+		}
 		p.stmt.Body = p.handleFor(&ast.BlockStmt{List: stmts}, 1)
 		cb.emitStmt(p.stmt)
 	} else {
@@ -1220,6 +1223,11 @@ func emitForRangeStmt(cb *CodeBuilder, p *forRangeStmt, stmts []ast.Stmt, flows 
 		}
 		cb.emitStmt(stmt)
 	}
+}
+
+func isBlank(e ast.Expr) bool {
+	id, ok := e.(*ast.Ident)
+	return ok && id.Name == "_"
 }
 
 const (
